@@ -422,17 +422,17 @@ Print Assumptions C12_parse_total_partial_nopanic_deferred_block.
 
 (** [parse_total_partial] (13), passes covered: the whole of parseDeferredBlocks - the depth-first walk from any live object
     [x] (ParseAML starts it at the root) that parses every pending deferred object it meets (row with pOpFlagDeferParsing and
-    the handle of the table being parsed; the walk does not descend below such an object) as in the previous theorem and
-    otherwise follows the first / next links, re-reading `next` after each child.  [dcnt s g x n] describes what the walk
-    will meet: [n] pending deferred objects, NONE of which has a FieldList argument - i.e. pending Buffer and While objects;
-    a pending BankField (the only deferred row with a field list; its parse inserts the new fields as siblings into the list
-    the walk is iterating) is excluded.  With room in the pool for [n] blocks (8 objects per table byte + 3 each) and the
-    hypotheses of the previous theorem: NEVER a panic, and [R], valid indexes, the reader invariant, live scopes and (after
-    success) the typing of the Methods hold again.  The proof shows that a block changes neither the child list of any
-    object that is not itself pending nor any payload field other than values, and (partial correctness, ParserTotalDeferH)
-    that no parser function changes the table handle, so the count of what is still to be visited is stable.
-    Fuel exhaustion is not excluded.  Not covered: pending BankFields, and the derivation of [TM NoX] and [dcnt] from the
-    earlier passes. *)
+    the handle of the table being parsed: Buffer, While, BankField; the walk does not descend below such an object) as in the
+    previous theorem and otherwise follows the first / next links, re-reading `next` after each child.  [dcnt s g x n]
+    describes what the walk will meet: [n] pending deferred objects (one with a field list - a BankField - has a parent).
+    With room in the pool for [n] blocks (8 objects per table byte + 3 each) and the hypotheses of the previous theorem:
+    NEVER a panic, and [R], valid indexes, the reader invariant, live scopes and (after success) the typing of the Methods
+    hold again.  The proof shows that a block changes no payload field other than values, that the child list of an object
+    that is not itself pending changes only when it holds a pending BankField, whose parse inserts its NamedFields right
+    behind it into the list the walk is iterating - objects that are new, childless and carry the NamedField row, so the
+    walk steps over them at no cost - and (partial correctness, ParserTotalDeferH) that no parser function changes the
+    table handle, so the count of what is still to be visited is stable.
+    Fuel exhaustion is not excluded.  Not covered: the derivation of [TM NoX] and [dcnt] from the earlier passes. *)
 Theorem C12_parse_total_partial_nopanic_deferred_walk :
   forall (tbls : list (list N)) (fuel parseFuel : nat) (x n : N) (s : pstate) (g : ghost),
     R (p_tree s) g ->
